@@ -347,7 +347,8 @@ INTS = [0, 1, 2, 3, 7, 10]
 BIG = [1000, 1001, 2 ** 31, 2 ** 53 + 1]
 FLOATS = [1.0, 2.5, 0.5, 100.0]
 STRS = ["a", "", "Ab", "b", "it's", 'say "hi"', "$x", "#no", "a\\b", "é", "日本", "a b", "\n", "ab"]
-XVALS = [0, 1, 2, -1, True, False, None, "a", "", "Ab", [1], [], [1, "a"], [[1]], 2.0, 1000, "b", [None]]
+PLAIN_STRS = [t for t in STRS if "$" not in t]     # for texts that get mutated ($ is not Python)
+XVALS = [0, 1, 2, 3, 7, -1, -3, True, False, None, "a", "", "Ab", [1], [], [1, "a"], [[1]], 2.0, 1000, "b", [None], 10, 5]
 COMMENTS = ["note", "$x > 1", "a # b", " spaced  ", "'q' \"d\"", "", "été", "rec.x == 1"]
 CMP = ["Eq", "NotEq", "Lt", "LtE", "Gt", "GtE", "In", "NotIn"]
 ARITH = ["Add", "Sub", "Mult", "Div", "Mod"]
@@ -356,7 +357,7 @@ ARITH = ["Add", "Sub", "Mult", "Div", "Mod"]
 class Gen(object):
   def __init__(self, rnd):
     self.r = rnd
-    self.allow_big = True     # huge integer literals (kept out of texts that get mutated)
+    self.allow_big = True     # huge integer literals and '$' in strings (kept out of texts that get mutated)
 
   def leaf(self):
     r = self.r
@@ -366,7 +367,7 @@ class Gen(object):
     if k < 0.45:
       return ["Const", r.choice(INTS)]
     if k < 0.60:
-      return ["Const", r.choice(STRS)]
+      return ["Const", r.choice(STRS if self.allow_big else PLAIN_STRS)]
     if k < 0.70:
       return ["Const", r.choice([True, False, None])]
     if k < 0.76:
@@ -390,6 +391,8 @@ class Gen(object):
       return ["Not", self.expr(d - 1)]
     if k < 0.50:
       op = r.choice(CMP)
+      if op in ("Lt", "LtE", "Gt", "GtE") and r.random() < 0.6:
+        return [op, self.num(d - 1), self.num(d - 1)]
       right = self.expr(d - 1)
       if self.allow_big and r.random() < 0.15:
         right = ["Const", r.choice(BIG)]
@@ -399,6 +402,8 @@ class Gen(object):
     if k < 0.56:
       return [r.choice(["Is", "IsNot"]), self.expr(d - 1), ["Const", r.choice([None, None, True, False])]]
     if k < 0.74:
+      if r.random() < 0.6:
+        return self.num(d)
       return [r.choice(ARITH), self.expr(d - 1), self.expr(d - 1)]
     if k < 0.82:
       return ["List"] + [self.expr(d - 1) for _ in range(r.choice([1, 2, 3]))]
@@ -411,6 +416,18 @@ class Gen(object):
     if k < 0.96:
       return ["Call", ["Attr", self.expr(d - 1), r.choice(["upper", "lower"])]]
     return ["Attr", self.expr(d - 1), r.choice(["x", "a", "upper"])]
+
+  def num(self, d):
+    """Mostly-numeric arithmetic (so that Python computes a value more often than it raises)."""
+    r = self.r
+    if d <= 0 or r.random() < 0.3:
+      k = r.random()
+      if k < 0.5:
+        return ["Const", r.choice(INTS)]
+      if k < 0.9:
+        return ["Attr", ["Name", "rec"], r.choice(["x", "y"])]
+      return ["Const", r.choice([1.0, 100.0, True])]
+    return [r.choice(ARITH), self.num(d - 1), self.num(d - 1)]
 
   def with_unsup(self, n):
     """Replace one random subexpression by an out-of-subset construct."""
